@@ -409,6 +409,8 @@ func main() {
 			{[]int{0, 1, 0}, []int{5, 3}}, {[]int{0, 1, 0}, []int{6, 6}}, {[]int{0, 1, 0}, []int{4, 6}},
 			{[]int{0, 1, 0, 2}, []int{4, 3, 3}}, {[]int{0, 1, 2, 0}, []int{5, 4, 6}}, {[]int{2, 0, 1, 0}, []int{6, 6, 6}},
 			{[]int{0, 1, 0, 2, 3}, []int{4, 3, 3, 3}}, {[]int{3, 0, 1, 2, 0}, []int{6, 4, 4, 6}},
+			// a child at three and four positions of one parent version (more locations than 2 per parent)
+			{[]int{0, 1, 0, 2, 0}, []int{4, 4, 4}}, {[]int{1, 0, 0, 0, 0, 2}, []int{3, 4, 4}},
 		}
 		nst := 0
 		for si, sh := range shapes {
